@@ -7,6 +7,7 @@ import (
 	"os"
 	"reflect"
 	"sort"
+	"strings"
 	"time"
 
 	"github.com/scrapli/scrapligo/driver/options"
@@ -284,6 +285,12 @@ func checkVariantLoad(label string, b []byte, f interface{}, variant string, pro
 		if v := checkDriver(label, eff, d, prompts); v != nil {
 			return nil, v
 		}
+		_, isAsset := canon[label]
+		if _, isVar := variantCanon[label]; (isAsset || isVar) && prompts != nil {
+			if v := checkOverlap(label, d.PrivilegeLevels, prompts); v != nil {
+				return nil, v
+			}
+		}
 	} else {
 		gd, _ := p.GetGenericDriver()
 		if gd != nil && !sameStrings(gd.FailedWhenContains, eff.Failed) {
@@ -479,6 +486,20 @@ func gen(tier string, seed int64) []mon.Case {
 				}
 			}
 		}
+		// observation only: a fresh session on a device already in a level whose prompt the default
+		// desired level's pattern accepts as well (pinned overlaps)
+		for _, n := range names {
+			for _, pr := range overlapPinned[n] {
+				i := strings.IndexByte(pr, '>')
+				a, b := pr[:i], pr[i+1:]
+				if b == canon[n].Default && canon[n].Levels[a] != canon[n].Levels[b] {
+					d := Dyn{Source: "asset", Platform: n, Start: a}
+					d.Kind = "overlap"
+					d.Seg, d.NL, d.ReadSize = genSeg(r)
+					add(fmt.Sprintf("c17/overlap/%s/%s-as-%s#%02d", n, a, b, k), d)
+				}
+			}
+		}
 		sessions("asset", "cumulus_linux", "root_login", []string{"configuration", "exec"})
 		sessions("fixture", "test-platform.yaml", "", keysOf(fixtureCanon["test-platform.yaml"]))
 	}
@@ -490,6 +511,11 @@ func run(c mon.Case) mon.Result {
 		Kind string `json:"kind"`
 	}
 	c.Decode(&k)
+	if k.Kind == "overlap" {
+		var d Dyn
+		c.Decode(&d)
+		return RunOverlap(d)
+	}
 	if k.Kind == "dyn" {
 		var d Dyn
 		c.Decode(&d)
